@@ -81,6 +81,8 @@ func main() {
 	loopsOf := flag.String("loops", "", "print the loop ordinals (with source positions) of the named function and exit")
 	noRetry := flag.Bool("noretry", false, "do not restart obligations on which a solver ran out of time (used when a failure is the expected outcome)")
 	siteCovers := flag.Bool("sitecovers", false, "add a consistency cover after every call whose contract was assumed (thorough tier)")
+	depsOut := flag.String("deps", "", "proof-dependency audit: write, for every discharged obligation, the contract clauses in its unsat core (and the property tags they lack) to this file")
+	depTags := flag.String("deptags", "/verif/specs/deptags.json", "table of property tags added to clauses by the proof-dependency audit")
 	flag.Parse()
 
 	initScratch()
@@ -123,6 +125,10 @@ func main() {
 			fmt.Fprintln(os.Stderr, "spec:", err)
 			os.Exit(2)
 		}
+	}
+	if err := specs.applyDepTags(*depTags); err != nil {
+		fmt.Fprintln(os.Stderr, "spec:", err)
+		os.Exit(2)
 	}
 	g := newGen(prog, pkg, specs)
 	g.timeoutS = *timeout
@@ -171,6 +177,7 @@ func main() {
 		return
 	}
 
+	g.depsOut = *depsOut
 	rep := g.runAll(*fnFilter, *prop, *dump)
 	rep.LoadS = tLoad.Seconds()
 	rep.WallS = time.Since(t0).Seconds()
